@@ -5,6 +5,15 @@ import json, subprocess
 HOOK_COMMITS = []  # filled in as hook commits are made in /repo
 
 CHECKS = {
+ "C01": dict(cat="exploration", technique="runtime reference-model monitor: a map name->set(canonical triple) driven in lockstep with the real store, every observable compared after every step; small universes enumerated completely",
+   text="Complete for three 4-triple universes (every subset by two paths x every single add/remove batch); sampled random histories (hundreds to thousands) over three graph names and a 12-triple universe with duplicates, overlaps, respelled zones and empty batches, observed after every step.",
+   note="Trusted: the 30-line model and the canonical projection; three UUID-collision classes are known findings shared with C06.", ref="DESIGN.md §5 C01"),
+ "C02": dict(cat="exploration", technique="runtime reference-model monitor: every lookup with every choice of fixed components after every step of random histories, compared with the filtered model and with a scan of Graph.Triples",
+   text="Sampled histories; per step all ten lookups x all argument combinations from stored and never-stored values (both predicate kinds, every anchor, another zone): 0.5 M (quick) to 25 M (thorough) lookup calls compared as multisets.",
+   note="Trusted: the property's own definition of matching (id, kind, instant) implemented in ref.Candidates.", ref="DESIGN.md §5 C02"),
+ "C09": dict(cat="exploration", technique="runtime reference-model monitor over a grid of lookup options (window, filter op x field, LatestAnchor, MaxElements x Offset); paging checked metamorphically against the real unpaged sequence",
+   text="Sampled graphs x all methods x arguments x the option grid (800 window/filter/LatestAnchor combinations, 14 paging pairs; complete grid in thorough): selection compared with the Appendix B pipeline, pages with blocks of the unpaged result, partition law directly, options value unchanged, channel closed on error.",
+   note="Trusted: the 60-line reference pipeline (ref.Select); graph content known by construction.", ref="DESIGN.md §5 C09"),
  "C06": dict(cat="exploration", technique="runtime monitor grouping generated adversarial value corpora by UUID and by accessor-based canonical identity; race detector on concurrent recomputation; digests compared across child processes",
    text="Sampled adversarial corpora (thousands of values per kind, all pairs decided by grouping), int64/float64 sweeps over every power of two and exponent plus random bit patterns, 16-goroutine recomputation under -race, 3 extra processes; three root causes are recorded as known findings and attributed by a syntactic class of the colliding pair.",
    note="Trusted: accessors and the canonical projection; 'every process' is observed on 4 processes; byte images are used for attribution of known findings only.", ref="DESIGN.md §5 C06"),
